@@ -51,3 +51,12 @@ __CPROVER_ensures(pl_swap_post())
 __CPROVER_assigns(__CPROVER_object_whole(a); __CPROVER_object_whole(b);
                   gv_a_last != 0: PI(gv_a_last)->next; gv_b_last != 0: PI(gv_b_last)->next)
 ;
+/* clear (bounded unit: <= 2 elements) */
+extern void* gv_i1; extern void* gv_i2;
+_Bool pl_clear_post(void);
+void w_PL_clear(void* l)
+__CPROVER_ensures(pl_clear_post())
+__CPROVER_assigns(__CPROVER_object_whole(l);
+                  gv_i1 != 0: __CPROVER_object_whole(gv_i1); gv_i2 != 0: __CPROVER_object_whole(gv_i2);
+                  g_ctor, g_dtor, g_last_ctor, g_last_dtor)
+;
